@@ -44,7 +44,10 @@ def relabellings(ci, seed):
     rs = np.random.RandomState(seed)
     rnd = dict(zip(u.tolist(), rs.choice(10 ** 6, size=len(u), replace=False).tolist()))
     shuf = dict(zip(u.tolist(), rs.permutation(u).tolist()))
-    return {'plus1000': ci + 1000, 'times7': ci * 7, 'reversed': (u.max() + u.min()) - ci,
+    canon = np.unique(ci, return_inverse=True)[1] + 1
+    return {'huge_offset': ci.astype(np.int64) + 2 ** 60, 'canonical_float': canon.astype(float), 'canonical_int8': canon.astype(np.int8),
+            'canonical_uint8': canon.astype(np.uint8), 'canonical_int32': canon.astype(np.int32),
+            'plus1000': ci + 1000, 'times7': ci * 7, 'reversed': (u.max() + u.min()) - ci,
             'random_injective': np.array([rnd[c] for c in ci.tolist()]), 'zero_based': ci - ci.min(),
             'shuffled': np.array([shuf[c] for c in ci.tolist()])}
 
@@ -171,7 +174,7 @@ def run(case, bct, REC):
                       ('single_community_both',) if len(np.unique(a)) == 1 and len(np.unique(b)) == 1 else ())
             REC.check(PROP, 'partition_distance', 'vin_in_unit_interval', bool(-1e-12 <= v <= 1 + 1e-12), det)
             rel = relabellings(b, case['rs'] + bi)
-            for rname in ('reversed', 'random_injective', 'zero_based'):
+            for rname in ('reversed', 'random_injective', 'zero_based', 'huge_offset', 'canonical_float'):
                 try:
                     v3, m3 = bct.partition_distance(a.copy(), rel[rname].copy())
                     v4, m4 = bct.partition_distance(rel[rname].copy(), a.copy())
